@@ -203,13 +203,27 @@ func cmdCheck(args []string) int {
 			trustedBodies = append(trustedBodies, k)
 			continue
 		}
-		vc, err := s.verifyFunc(fn, c)
-		if err != nil {
-			stale = append(stale, fmt.Sprintf("%s: %v", k, err))
-			continue
+		targets := []*ssa.Function{fn}
+		if fn.TypeParams().Len() > 0 && len(fn.TypeArgs()) == 0 {
+			// contract on a generic function: every instantiation used in the loaded packages is verified against it
+			targets = s.instantiationsOf(fn)
+			if len(targets) == 0 {
+				stale = append(stale, fmt.Sprintf("%s: generic function has no instantiation", k))
+				continue
+			}
 		}
-		vcs = append(vcs, vc)
-		funcsUnder = append(funcsUnder, k)
+		for _, tf := range targets {
+			vc, err := s.verifyFunc(tf, c)
+			if err != nil {
+				stale = append(stale, fmt.Sprintf("%s: %v", k, err))
+				continue
+			}
+			if tf != fn {
+				vc.instName = tf.Name()
+			}
+			vcs = append(vcs, vc)
+			funcsUnder = append(funcsUnder, k+instSuffix(tf, fn))
+		}
 	}
 	if len(stale) > 0 {
 		for _, m := range stale {
@@ -240,7 +254,7 @@ func cmdCheck(args []string) int {
 		q := "(set-logic ALL)\n" + prelude.For(all.String()) + "(check-sat)\n"
 		af, err := writeQuery(outDir, "axioms-consistent", q)
 		if err == nil {
-			ar := runCover(af, 3, seed)
+			ar := runCover(af, 3, seed, true)
 			if ar.Verdict == "unsat" {
 				fmt.Printf("TOOL-ERROR property=%s the axioms and assumed library facts used by this check are inconsistent (%s, file %s)\n", *prop, ar.Solver, af)
 				return 2
@@ -254,12 +268,15 @@ func cmdCheck(args []string) int {
 			if it.Kind != ItemOblig {
 				continue
 			}
-			r := &OblResult{Func: vc.contract.Pkg + "::" + vc.contract.Key, Name: it.Name, Info: it.Info, vc: vc, idx: i, Cover: strings.HasPrefix(it.Name, "cover:") || strings.HasPrefix(it.Name, "reach:"), Info2: strings.HasPrefix(it.Name, "reach:")}
+			r := &OblResult{Func: vc.contract.Pkg + "::" + vc.contract.Key + vc.instSuffix(), Name: it.Name, Info: it.Info, vc: vc, idx: i, Cover: strings.HasPrefix(it.Name, "cover:") || strings.HasPrefix(it.Name, "reach:"), Info2: strings.HasPrefix(it.Name, "reach:")}
 			if it.Pos.IsValid() {
 				r.Pos = fmt.Sprintf("%s:%d", strings.TrimPrefix(it.Pos.Filename, *repo+"/"), it.Pos.Line)
 			}
 			if it.Text == "true" {
 				r.Verdict, r.Solver, r.Trivial = "unsat", "simplifier", true
+			}
+			if r.Info2 && *tier != "thorough" && !*verbose {
+				continue // per-return reachability is informational: thorough tier (or -v) only
 			}
 			results = append(results, r)
 		}
@@ -276,7 +293,7 @@ func cmdCheck(args []string) int {
 			sem <- struct{}{}
 			defer func() { <-sem }()
 			q := r.vc.Query(r.idx, prelude, true)
-			dir := filepath.Join(outDir, sanitizeFile(r.vc.contract.Key))
+			dir := filepath.Join(outDir, sanitizeFile(r.vc.contract.Key+r.vc.instSuffix()))
 			file, err := writeQuery(dir, r.Name, q)
 			if err != nil {
 				r.Verdict = "error"
@@ -294,7 +311,7 @@ func cmdCheck(args []string) int {
 			}
 			var res SolveResult
 			if r.Cover {
-				res = runCover(file, to, seed)
+				res = runCover(file, to, seed, !r.Info2)
 			} else {
 				res, _ = discharge(file, to, seed, all)
 			}
